@@ -54,7 +54,7 @@ def rand_registry(rng, grid, nmax=5):
     for k in range(rng.randint(1, nmax)):
         key = rng.sample(axn, rng.choice([1, 1, 1, 2, 2, 3][: 2 * len(axn)]))
         pos = [rng.choice([p for p, _ in axd[a]["pos"]]) for a in key]
-        e = metric_entry(rng, grid, key, pos, f"m{k + 1}", foreign=0.25)
+        e = metric_entry(rng, grid, key, pos, f"m{k + 1}", foreign=0.4)
         slot = (frozenset(key), frozenset(e["dims"]))
         if slot in slots:
             continue
@@ -70,11 +70,13 @@ def partition_registry(rng, grid, adims):
     apos = {a: next(p for p, d in axd[a]["pos"] if d in adims) for a in axn}
     reg = []
     pair = rng.sample(axn, 2)
+    allother = rng.random() < 0.3
     n = 0
     for key in [pair] + [[a] for a in axn] + ([rng.sample(axn, 2)] if rng.random() < 0.3 else []):
         n += 1
-        pos = [apos[a] if rng.random() < 0.8 else rng.choice([p for p, _ in axd[a]["pos"]]) for a in key]
-        reg.append(metric_entry(rng, grid, key, pos, f"m{n}"))
+        # now and then every block sits at another position than the array (all of them have to be interpolated)
+        pos = [apos[a] if rng.random() < (0.8 if not allother else 0.15) else rng.choice([p for p, _ in axd[a]["pos"]]) for a in key]
+        reg.append(metric_entry(rng, grid, key, pos, f"m{n}", foreign=0.35))
     uniq, seen = [], set()
     for e in reg:
         sl = (frozenset(e["key"]), frozenset(e["dims"]))
@@ -99,7 +101,31 @@ def subset_registry(rng, grid, adims):
             key = list(key)
             rng.shuffle(key)
             pos = [apos[a] if rng.random() < 0.85 else rng.choice([p for p, _ in axd[a]["pos"]]) for a in key]
-            reg.append(metric_entry(rng, grid, key, pos, f"m{n}"))
+            reg.append(metric_entry(rng, grid, key, pos, f"m{n}", foreign=0.35))
+    rng.shuffle(reg)
+    return reg
+
+
+def twin_registry(rng, grid, adims, req):
+    """nothing for the requested set itself; every single axis of it registered with a metric that lives on the SAME
+    dimensions (dx(x, y) and dy(x, y) on one staggered point), at a position other than the array's for some axis"""
+    axd = {a["name"]: a for a in grid["axes"]}
+    apos = {a: next(p for p, d in axd[a]["pos"] if d in adims) for a in req}
+    pos = {}
+    for a in req:
+        others = [p for p, _ in axd[a]["pos"] if p != apos[a] and ((p == "center") != (apos[a] == "center"))]
+        pos[a] = rng.choice(others) if others and rng.random() < 0.7 else apos[a]
+    dims = [dict(axd[a]["pos"])[pos[a]] for a in req]
+    shape = [plen(pos[a], axd[a]["n"]) for a in req]
+    size = 1
+    for s_ in shape:
+        size *= s_
+    reg = []
+    for k, a in enumerate(req):
+        o = list(range(len(dims)))
+        rng.shuffle(o)
+        reg.append({"key": [a], "var": f"m{k + 1}", "dims": [dims[i] for i in o], "shape": [shape[i] for i in o],
+                    "flat": [rng.randint(1, 4) for _ in range(size)]})
     rng.shuffle(reg)
     return reg
 
@@ -131,6 +157,8 @@ def gen_getmetric(rng, cid):
             reg = partition_registry(rng, grid, adims) if rng.random() < 0.4 else subset_registry(rng, grid, adims)
             if not reg:
                 continue
+        if not structured and len(req) >= 2 and rng.random() < 0.12 and all(a in have for a in req):
+            reg = twin_registry(rng, grid, adims, req)
         case = {"id": cid, "ev": "GetMetric", "grid": grid, "reg": reg, "adims": adims, "ashape": ashape, "axes": req}
         if rng.random() < 0.35:
             # earlier lookups on the same Grid, for arrays at other positions of the same axes: what get_metric
